@@ -95,6 +95,8 @@ func close2(gate chan struct{}, release int) {
 func Verif_C20_ServerToClient() {
 	n := zv.Param("sends", 3)
 	withHeaders := zv.Bool("pending-header-frame")
+	mtd := []string{"S", "R", "C"}[zv.Choose("method", 3)]
+	headerPolls := zv.Choose("client-header-polls", 3) // the client calls Header() this many times while not receiving
 	hooks := &verifHooks{}
 	var completed, failed int32
 	hooks.Stream = func(tag string, ss grpc.ServerStream) error {
@@ -113,21 +115,37 @@ func Verif_C20_ServerToClient() {
 	ch := verifChannel(hooks)
 	ctx, cancel := context.WithCancel(context.Background())
 	defer cancel()
-	cs, err := ch.NewStream(ctx, zzfix.StreamDescOf("S"), "/a/S")
+	cs, err := ch.NewStream(ctx, zzfix.StreamDescOf(mtd), "/a/"+mtd)
 	if err != nil {
 		zv.Fail("stream-created")
 		return
 	}
+	for i := 0; i < headerPolls; i++ {
+		cs.Header() // asking for the headers is not receiving messages
+	}
 	zv.Quiesce()
 	c := atomic.LoadInt32(&completed)
 	zv.Reach("stalled")
-	zv.Observe("stalled", withHeaders, c)
+	zv.Observe("stalled", withHeaders, mtd, headerPolls, c)
 	limit := int32(1)
 	if withHeaders {
 		limit = 0 // the header frame occupies the single slot
 	}
+	if headerPolls > 0 {
+		// Header() takes one frame off the stream (the header frame, or the first
+		// message which it keeps for the next receive): one more send may complete,
+		// however often Header() is called
+		limit++
+	}
 	zv.Assert(c <= limit, "at-most-one-frame-buffered-while-receiver-stalled")
 	zv.Assert(atomic.LoadInt32(&failed) == 0, "blocked-send-has-not-failed")
+	if mtd == "C" {
+		// a single-response method: more than one response is an error for the
+		// client; only the run-ahead bound above is the subject here
+		cancel()
+		zv.Quiesce()
+		return
+	}
 	// the client now receives everything
 	got := 0
 	for {
